@@ -36,7 +36,7 @@ func c06Cfg(c *core.Ctx, idx int) wl.Cfg {
 	cfg := wl.Cfg{}
 	cfg.Mode = mon.Mode(1 + idx%2)
 	cfg.Queue = []int{1, 2, 4, 8, 64}[(idx/2)%5]
-	cfg.Closer = 1 + (idx/10)%3
+	cfg.Closer = 1 + (idx/10)%4
 	cfg.Writers = 1 + rng.Intn(3)
 	cfg.PerWriter = 1 + rng.Intn(4)
 	cfg.Sizes = []int{1, 16, 17, 100, 1024, 1025, 4097}
@@ -51,8 +51,21 @@ func c06Cfg(c *core.Ctx, idx int) wl.Cfg {
 		wv := wraps[(idx/4)%len(wraps)]
 		cfg.Wrap = &wv
 	}
+	if cfg.Closer == 4 {
+		cfg.Sizes = []int{16, 17, 100, 1024, 1025}
+		cfg.PerWriter += 2
+		cfg.Wrap = nil // the refused batch must be identifiable: only the mock transport sees a whole Writev
+	}
 	n := cfg.Writers * cfg.PerWriter
 	const T = 400 * time.Millisecond
+	if idx%40 == 7 && cfg.Closer != 4 {
+		cfg.Mode = mon.Blocking
+		cfg.Closer = 1
+		cfg.Wrap = nil
+		cfg.Plan = []mon.Step{{At: "tV0", Occ: 1, Kind: mon.Gate, Until: "never", UntilCount: 1, Timeout: 1300 * time.Millisecond}}
+		cfg.PlanKind = "sender-stalled-1.3s-in-writev"
+		return cfg
+	}
 	switch k := (idx / 20) % 6; k {
 	case 0, 1:
 		// decisive script: second payload accepted while the sender owns the queue;
@@ -150,9 +163,17 @@ func judgeC06(c *core.Ctx, id string, h *wl.History) {
 	if h.Cfg.Mode == mon.NonBlock {
 		for _, o := range h.Ops {
 			if o.Kind == mon.OpClose {
-				if o.WallIn.Sub(h.CloseWallCall) >= 900*time.Millisecond {
-					c.Count("inconclusive_grace_possibly_exhausted", 1)
-					return
+				if !h.CloseWallCall.IsZero() && o.WallIn.Sub(h.CloseWallCall) >= 900*time.Millisecond {
+					busy := false
+					for _, w := range h.Ops {
+						if (w.Kind == mon.OpWrite || w.Kind == mon.OpWritev || w.Kind == mon.OpFlush) && w.Out >= h.CloseCall && w.In <= o.In {
+							busy = true // the sender was inside the transport during the wait: it may have been stalled beyond the grace period
+						}
+					}
+					if busy {
+						c.Count("inconclusive_grace_possibly_exhausted", 1)
+						return
+					}
 				}
 				break
 			}
@@ -160,7 +181,7 @@ func judgeC06(c *core.Ctx, id string, h *wl.History) {
 	}
 	c.Count("pre_close_payloads", int64(pre))
 	c.Count("mode_"+h.Cfg.Mode.String(), 1)
-	c.Count("closer_"+[]string{"", "user-goroutine", "read-loop-handler", "parent-context-then-close"}[h.Cfg.Closer], 1)
+	c.Count("closer_"+[]string{"", "user-goroutine", "read-loop-handler", "parent-context-then-close", "failed-sender-closes"}[h.Cfg.Closer], 1)
 	// did the closer overlap a live sender?
 	overlapped := false
 	after := false
